@@ -119,6 +119,7 @@ struct SendRec {
     std::vector<int> overflow;           // eligible slots whose mailbox was full (no obligation)
     std::map<int, int> delivered;        // slot -> times delivered (outside unstash)
     std::set<int> dead;                  // slot: recipient left RUNNING/PAUSED (or PAUSED at loop end) before delivery
+    std::set<int> unknown;               // slot: recipient was not RUNNING at some point of the final flush: the message may or may not have been discarded
 };
 
 struct StashM { long send_id; uint64_t ud; int type; const void *data; const m_evt_t *raw; };
@@ -158,6 +159,8 @@ struct Slot {
     long c08_last_send_id = -1;
     uint64_t c08_pill_gseq = 0, c08_pill_effect_gseq = 0, c08_last_reset_gseq = 0;
     uint64_t pending_pill_first_gseq = 0;
+    bool pill_overflowed = false;
+    bool pill_wildcard = false;       // a pill was sent to it by a final-flush handler: whether it is still pending is unknown
     std::set<std::tuple<int, long, long>> c09_model;
     // mirrors
     std::map<std::string, SubM> subs;
@@ -231,6 +234,7 @@ struct World {
     std::vector<Delivery *> cur_delivery;
     // bookkeeping for quiescent-point oracles
     uint64_t last_quiescent_gseq = 0;
+    uint64_t last_real_poll_gseq = 0;
     uint64_t quiescent_points = 0;
     uint64_t reg_dereg_since_quiescent = 0;
     size_t batches_at_last_quiescent = 0;
